@@ -44,13 +44,13 @@ func c09Scenario(name string, o tOpt, p int, expectAllOK bool) vr.Scenario {
 		s.beforeClose = func() {
 			if pt, ok := s.tr.(*PipelineTransport); ok {
 				vs.Sleep(time.Millisecond)
-				pt.m.Lock()
-				for lc := range pt.conns {
-					lc.mu.Lock()
-					ex.lazyCounters = append(ex.lazyCounters, intField(lc, "reservedQuery"))
-					lc.mu.Unlock()
-				}
-				pt.m.Unlock()
+				withLock(pt, "m", func() {
+					for _, lc := range elemsIn[*lazyDnsConn](pt, "conns") {
+						withLock(lc, "mu", func() {
+							ex.lazyCounters = append(ex.lazyCounters, intField(lc, "reservedQuery"))
+						})
+					}
+				})
 			}
 			// capacity of the transport: with a live, healthy, drained connection at
 			// hand (nothing unanswered, nothing unread, nobody closed it) one more
@@ -129,9 +129,9 @@ func c09Scenario(name string, o tOpt, p int, expectAllOK bool) vr.Scenario {
 				// the connection may die (peer close being processed by the read
 				// loop) while we measure: capacity of a dead connection is not defined
 				ex.measured = !sawClosed
-				s.dc.queueMu.Lock()
-				ex.reservedEnd, ex.queueEnd = intField(s.dc, "reservedQuery"), len(s.dc.queue)
-				s.dc.queueMu.Unlock()
+				withLock(s.dc, "queueMu", func() {
+					ex.reservedEnd, ex.queueEnd = intField(s.dc, "reservedQuery"), lenField(s.dc, "queue")
+				})
 			}
 			s.run()
 		}
